@@ -400,15 +400,16 @@ def run(ctx):
         ctx.note('real %s REPL (%s): %d generated commands (outputs up to %d bytes), %d mismatches' % (kind, variant, n, max(big), len(fails)))
     # binding self-test
     cands = [t for t in traces if verdicts[t['id']][0] == 'ok' and any(e['e'] == 'cmdret' and e['val'] for e in t['ev'])]
-    a = copy.deepcopy(cands[0]); a['id'] = 'corrupt'
-    for e in a['ev']:
-        if e['e'] == 'cmdret' and e['val']:
-            e['val'] = e['val'][:-1]
-            break
-    v2, _ = tracecheck.validate([a], 'ExpectTrace', ctx.work, constants=TRACE_CONSTS, procs=1, tag='selftest')
-    if v2['corrupt'][0] == 'ok':
-        raise tlc.TLCError('self-test: truncated return value accepted')
-    ctx.note('binding self-test: truncated return value -> %s' % v2['corrupt'][0])
+    if common.selftest_possible(ctx, cands, 'a non-empty return value'):
+        a = copy.deepcopy(cands[0]); a['id'] = 'corrupt'
+        for e in a['ev']:
+            if e['e'] == 'cmdret' and e['val']:
+                e['val'] = e['val'][:-1]
+                break
+        v2, _ = tracecheck.validate([a], 'ExpectTrace', ctx.work, constants=TRACE_CONSTS, procs=1, tag='selftest')
+        if v2['corrupt'][0] == 'ok':
+            raise tlc.TLCError('self-test: truncated return value accepted')
+        ctx.note('binding self-test: truncated return value -> %s' % v2['corrupt'][0])
     status, nviol, nknown = common.conclude(ctx)
     evidence.write('C16', ctx.tier, ctx.seed, 'model_checking', {
         'states': mc['distinct'], 'transitions': mc['generated'], 'traces_validated_against_impl': len(traces),
